@@ -1,14 +1,14 @@
 SPECIFICATION Spec
 CONSTANTS
-  Mode = "matrix"
-  ProtoSets <- QProtoSets
-  CodecSeqs <- QCodecSeqs
-  CompSeqs <- QCompSeqs
+  Mode = "faults"
+  ProtoSets <- SingleProtoSets
+  CodecSeqs <- OneCodecSeqs
+  CompSeqs <- GzCompSeqs
   ClientForms <- QForms
   ClientCodecs <- QCodecs
   ClientComps <- QComps
-  Methods <- QMethods
-  MaxMsgs = 2
+  Methods <- FMethods
+  MaxMsgs = 1
   EndCodes <- OkOnly
   HttpStatuses <- NoStatuses
   FlagValues <- QFlags
